@@ -82,6 +82,19 @@ CLAIMED = {
             "declarations first, bundles last, ECHAR escapes, typed / language literals) and the parsed document must "
             "equal the strict observation of the original.", TECH + "; independent PROV-N parser as oracle",
             NOTE + "; the PROV-N parser (written from the grammar as recalled in DESIGN appendix A.1) is trusted"),
+    "C14": ("Every bundle-free document reachable by <= depth calls of a 21-letter alphabet (declared and undeclared "
+            "endpoints, entity+agent under one identifier, eight relation kinds, self-loops, parallel duplicates, "
+            "identified/anonymous, missing endpoints, attributes) is converted with prov_to_graph and compared with a "
+            "reference graph computed from the reference unification: node multiset, inferred nodes, edge multiset "
+            "with endpoints by URI and the carried relation, MultiDiGraph-ness; graph_to_prov must return the unified "
+            "document restricted to elements and two-ended relations.", TECH, NOTE),
+    "C15": ("A product of 29 graph structures (n-ary, annotated, one-ended, parallel, self-loop, 0-2 bundles sharing URIs "
+            "with the document) and 15 markup-significant texts x 7 positions (label, value, URI value, qualified-name "
+            "value, attribute name, identifier, bundle identifier) x 3 placements, plus all states of a bundle-aware "
+            "history alphabet to depth 2 (thorough 3), each under all 80 option sets; Graphviz (dot -Tdot_json) must "
+            "accept the text and the parsed structure (clusters, element nodes per unified record and cluster, generic "
+            "nodes, relation paths, n-ary legs, annotation tables, HTML-like label skeletons and texts) must equal the "
+            "expectation.", TECH + "; Graphviz as independent DOT reader", NOTE + "; Graphviz 2.43 is trusted as DOT and HTML-like label parser"),
 }
 
 NA = {}
